@@ -300,7 +300,7 @@ static bool selfRecursive(Function &F) {
 
 int main(int argc, char **argv) {
   if (argc < 3) {
-    errs() << "usage: irspec in.ll out.ll\n";
+    errs() << "usage: irspec in.ll out.ll [-nounroll]\n";
     return 2;
   }
   LLVMContext Context;
@@ -568,8 +568,9 @@ int main(int argc, char **argv) {
   // "for (i = 0; i < 8; ++i) statement(i)" become the same straight-line code, with constant offsets and
   // constant call arguments.  Innermost loops first; a loop is left alone when its trip count is not a
   // compile-time constant, exceeds 64, or the unrolled body would exceed 6000 instructions.
+  bool noUnroll = argc > 3 && std::string(argv[3]) == "-nounroll";
   for (Function &F : *M) {
-    if (F.isDeclaration()) continue;
+    if (F.isDeclaration() || noUnroll) continue;
     bool again = true;
     int rounds = 0;
     while (again && rounds++ < 16) {
